@@ -161,6 +161,17 @@ func cnSchema(db *cnDB, rec *cnRec) *graphql.Schema {
 			case 5:
 				// the resolver itself reports a cancellation (an upstream call was cancelled): the subscription ends quietly
 				return context.Canceled
+			case 6:
+				// an application error with a text for the log and another one for the client
+				return cnAppErr{}
+			case 7:
+				// a resolver that honours its context: it waits until the run is cancelled (4 s at most)
+				select {
+				case <-ctx.Done():
+					return ctx.Err()
+				case <-time.After(4 * time.Second):
+					return nil
+				}
 			}
 		}
 		return nil
